@@ -286,10 +286,18 @@ class StubContract:
 BLOB = b'\x05\x06'
 
 
-def generic_cache(c):
+MUTABLE_FIELDS = {'sigfield1': b'\x11', 'sigfield2': b'\x22\x33'}
+
+
+def generic_cache(c, mutable_fields=False):
     d = SDict()
-    d['sigfield1'] = c.bytes('sigfield1', 1)
-    d['sigfield2'] = c.bytes('sigfield2', 2)
+    if mutable_fields:
+        # the embedder handed over its sigfields as mutable buffers: no instruction may alter them in place
+        for k, v in MUTABLE_FIELDS.items():
+            d[k] = c.e.inputs[k] = bytearray(v)
+    else:
+        d['sigfield1'] = c.bytes('sigfield1', 1)
+        d['sigfield2'] = c.bytes('sigfield2', 2)
     d['timestamp'] = c.int('timestamp', 0, 2 ** 64)
     d['custom'] = 'text'
     d['blob'] = bytearray(BLOB)              # an embedder-owned *mutable* value: must never be aliased or altered
@@ -300,7 +308,7 @@ def generic_cache(c):
     return d
 
 
-def generic_step(c, pkg, op, lens, sym_limits=True, ntape=6, callstack_sym=True, abstract=True, copy_bound=None, tape0=None):
+def generic_step(c, pkg, op, lens, sym_limits=True, ntape=6, callstack_sym=True, abstract=True, copy_bound=None, tape0=None, ascii_only=True, mutable_fields=False):
     """one instruction `op` (name, or int for a NOP code) from a symbolic pre-state; returns (state, outcome,
     summary).  Nested run_tape calls go to the P2 summary."""
     F = pkg.functions
@@ -330,12 +338,12 @@ def generic_step(c, pkg, op, lens, sym_limits=True, ntape=6, callstack_sym=True,
         # the called definition may itself be in the middle of a run (recursion): arbitrary position
         def_tape.pointer = c.int('def_pointer', 0, 1)
     defs = SDict({b'\x00': def_tape})
-    st = mk_state(c, pkg, lens, tape_data, cache=generic_cache(c), sym_limits=sym_limits, callstack=cs,
+    st = mk_state(c, pkg, lens, tape_data, cache=generic_cache(c, mutable_fields), sym_limits=sym_limits, callstack=cs,
                   contracts=contracts, definitions=defs)
     st.contract = contract
     st.def_tape = def_tape
     st.def_pointer = def_tape.pointer
-    if name in STR_OPS:
+    if name in STR_OPS and ascii_only:
         for it in st.items:
             for x in items_of(it):
                 if not isinstance(x, int):
@@ -472,8 +480,12 @@ def concrete_generic_step(inputs, params):
             raise MemoryError('recorded instead of allocated')
         return old_tb(n)
     cache = RecDict()
-    dict.__setitem__(cache, 'sigfield1', inputs.get('sigfield1', b''))
-    dict.__setitem__(cache, 'sigfield2', inputs.get('sigfield2', b''))
+    if params.get('mutable'):
+        for k, v in MUTABLE_FIELDS.items():
+            dict.__setitem__(cache, k, bytearray(v))
+    else:
+        dict.__setitem__(cache, 'sigfield1', inputs.get('sigfield1', b''))
+        dict.__setitem__(cache, 'sigfield2', inputs.get('sigfield2', b''))
     dict.__setitem__(cache, 'timestamp', inputs.get('timestamp', 0))
     dict.__setitem__(cache, 'custom', 'text')
     dict.__setitem__(cache, 'blob', bytearray(BLOB))
